@@ -24,7 +24,9 @@ Definition reviewed : list (string * string * string * string * string) := [
      "sorted: C07_scope_names (names of one scope)");
   ("ir/src/name_generator.rs", "build", "for:symbols", "into-set",
      "not-hash: a Vec of symbols");
-  ("ir/src/name_generator.rs", "build", "name_map.names.values(", "ordered",
+  ("ir/src/name_generator.rs", "build", "for:&name_map.names", "into-set",
+     "set: the loop body only inserts namespace ids into the HashSet used_namespaces (a namespace and its parents when a non-namespace symbol lives in it); the early `break` only skips parents that are already in the set");
+  ("ir/src/name_generator.rs", "build", "for:&name_map.names", "into-set",
      "set: the loop body only inserts the name into the HashSet of its namespace (namespace_names), read by membership tests alone");
   ("ir/src/usage_analysis.rs", "recurse", "self.0.keys(", "collected-unsorted",
      "fixpoint: C07_usage_fixpoint");
